@@ -47,6 +47,8 @@ func checkC07(c *Ctx) {
 	parallelFor(n3, func(i int) { c07Run3(c, i, depths) })
 	parallelFor(n2, func(i int) { c07Run2(c, i, depths) })
 	c07HighRes(c)
+	c07HighRes2(c)
+	c07Reuse(c)
 	c.mu.Lock()
 	ds := []string{}
 	for k := range depths {
@@ -751,6 +753,107 @@ func c07HighRes(c *Ctx) {
 			c.Violate("", fmt.Sprintf("octree-highres cells=%d %s: a surface point is %g (or more) from the mesh, cell diagonal %g: part of the surface is missing", k.cells, desc, far, diag), cs)
 		default:
 			c.Distinct(fmt.Sprintf("3d/highres/%d/%d", k.axis, k.cells))
+		}
+	})
+}
+
+//-----------------------------------------------------------------------------
+// Renderer values reused for several parts: what a renderer emits for a part must not depend on what it rendered before.
+
+func c07Reuse(c *Ctx) {
+	seqs := c.Pick(6, 60)
+	parallelFor(seqs, func(i int) {
+		r := c.Rng("reuse", i)
+		cells := pickOne(r, []int{20, 33, 48, 60})
+		oct := render.NewMarchingCubesOctree(cells)
+		quad := render.NewMarchingSquaresQuadtree(cells * 3)
+		uni := render.NewMarchingCubesUniform(cells / 2)
+		sizes := []float64{1, 1.25, 0.8, 2.2, 1, 3.1, 0.5}
+		for step, sz0 := range sizes {
+			sz := sz0 * r.R(0.95, 1.05)
+			var s3 sdf.SDF3
+			var s2 sdf.SDF2
+			var desc string
+			if step%3 == 2 {
+				b, _ := sdf.Box3D(v3.Vec{X: 3 * sz, Y: 2 * sz, Z: sz}, 0.2*sz)
+				s3, desc = b, fmt.Sprintf("rounded box scale %.3g", sz)
+				s2 = sdf.Box2D(v2.Vec{X: 3 * sz, Y: 2 * sz}, 0.2*sz)
+			} else {
+				sp, _ := sdf.Sphere3D(sz)
+				s3, desc = sp, fmt.Sprintf("sphere r=%.3g", sz)
+				s2, _ = sdf.Circle2D(sz)
+			}
+			cs := c07Case{Index: i, Dim: 3, Cells: cells, Family: "renderer-reuse", Shape: fmt.Sprintf("step %d: %s", step, desc)}
+			a, b := render.ToTriangles(s3, oct), render.ToTriangles(s3, render.NewMarchingCubesOctree(cells))
+			if m, e := diffTriangles(a, b, 0); m+e > 0 || len(a) != len(b) {
+				c.Violate("", fmt.Sprintf("octree-history cells=%d step %d (%s): a renderer value that rendered other parts before emits %d triangles, a fresh one %d (%d missing, %d extra)", cells, step, desc, len(a), len(b), m, e), cs)
+			}
+			ua, ub := render.ToTriangles(s3, uni), render.ToTriangles(s3, render.NewMarchingCubesUniform(cells/2))
+			if m, e := diffTriangles(ua, ub, 0); m+e > 0 || len(ua) != len(ub) {
+				c.Violate("", fmt.Sprintf("uniform-history cells=%d step %d (%s): reused renderer %d triangles, fresh %d", cells/2, step, desc, len(ua), len(ub)), cs)
+			}
+			la, lb := collectLines(quad, s2), collectLines(render.NewMarchingSquaresQuadtree(cells*3), s2)
+			same := len(la) == len(lb)
+			for k := 0; same && k < len(la); k++ {
+				same = *la[k] == *lb[k]
+			}
+			if !same {
+				c.Violate("", fmt.Sprintf("quadtree-history cells=%d step %d (%s): reused renderer %d segments, fresh %d (or different coordinates)", cells*3, step, desc, len(la), len(lb)), cs)
+			}
+			c.Eval(3)
+			if step > 0 {
+				c.Distinct(fmt.Sprintf("reuse/%d/%d/%d", cells, i, step))
+			}
+		}
+	})
+}
+
+// c07HighRes2 : the quadtree analogue of the big-lattice oracle.
+func c07HighRes2(c *Ctx) {
+	cells := []int{33000, 40000}
+	if !c.Quick {
+		cells = append(cells, 70000, 140000)
+	}
+	type k2 struct{ axis, cells int }
+	var cases []k2
+	for _, n := range cells {
+		cases = append(cases, k2{0, n}, k2{1, n})
+	}
+	parallelFor(len(cases), func(i int) {
+		k := cases[i]
+		r := c.Rng("highres2", i)
+		sz := v2.Vec{X: 1000, Y: 1}
+		if k.axis == 1 {
+			sz = v2.Vec{X: 1, Y: 1000}
+		}
+		ofs := v2.Vec{X: r.R(-50, 50), Y: r.R(-50, 50)}
+		s := sdf.Transform2D(sdf.Box2D(sz, 0.2), sdf.Translate2d(ofs))
+		ls := collectLines(render.NewMarchingSquaresQuadtree(k.cells), s)
+		c.Eval(1)
+		h := 1000.0 / float64(k.cells)
+		desc := fmt.Sprintf("rounded bar 1000x1 along axis %d at %v", k.axis, ofs)
+		cs := c07Case{Index: i, Dim: 2, Cells: k.cells, Family: "high-resolution", Shape: desc, TrisP: len(ls)}
+		rep := checkClosed2(ls, 1e-6*h)
+		perim := 2*(1000-0.4) + 2*(1-0.4) + 2*math.Pi*0.2
+		worst := 0.0
+		for _, l := range ls {
+			for q := 0; q < 2; q++ {
+				if f := math.Abs(s.Evaluate(l[q])); f > worst {
+					worst = f
+				}
+			}
+		}
+		switch {
+		case len(ls) == 0:
+			c.Violate("", fmt.Sprintf("quadtree-highres cells=%d %s: no segments", k.cells, desc), cs)
+		case rep.OddDegree > 0:
+			c.Violate("", fmt.Sprintf("quadtree-highres cells=%d %s: contour is open: %d endpoints of odd degree (first %v) in %d segments", k.cells, desc, rep.OddDegree, rep.FirstOdd, len(ls)), cs)
+		case worst > h:
+			c.Violate("", fmt.Sprintf("quadtree-highres cells=%d %s: an endpoint is %g from the boundary (cell %g)", k.cells, desc, worst, h), cs)
+		case math.Abs(rep.Length-perim) > 0.001*perim:
+			c.Violate("", fmt.Sprintf("quadtree-highres cells=%d %s: total length %g, perimeter %g: segments lost or duplicated", k.cells, desc, rep.Length, perim), cs)
+		default:
+			c.Distinct(fmt.Sprintf("2d/highres/%d/%d", k.axis, k.cells))
 		}
 	})
 }
